@@ -273,9 +273,9 @@ func readerDiscardRules(c *Ctx, prop string) {
 	m.Models["(*"+wsutil+".Reader).NextFrame"] = func(cl *fold.Call) fold.Val {
 		mm := cl.M
 		mm.Emit(fold.Effect{Kind: "call", Name: "NextFrame", Args: cl.Args})
-		n := 3
-		if cl.Seq >= 2 {
-			n = 2 // bound the exploration: the second continuation is final or fails
+		n := 4
+		if cl.Seq >= 3 {
+			n = 2 // bound the exploration: the third frame is final or fails
 		}
 		k := mm.Choose(fmt.Sprintf("nf%d", cl.Seq), n)
 		if n == 2 {
@@ -284,6 +284,11 @@ func readerDiscardRules(c *Ctx, prop string) {
 		cur.nf = append(cur.nf, k)
 		h := headerVal(k == 1, 0, 0, false, nil, fold.K(3))
 		switch k {
+		case 3:
+			// an intermediate control frame was handled inside NextFrame: final header, message still open
+			ch := headerVal(true, 0, 9, false, nil, fold.K(0))
+			mm.Store(fold.Ref{O: recv, Path: []int{L.raw, 1}}, fold.K(0))
+			return fold.Tuple{ch, fold.Nil{}}
 		case 0:
 			mm.Store(fold.Ref{O: recv, Path: []int{L.raw, 1}}, fold.Int{Lo: 1, Hi: fold.MaxInt64, Name: "N2"})
 			return fold.Tuple{h, fold.Nil{}}
@@ -358,7 +363,7 @@ func readerDiscardRules(c *Ctx, prop string) {
 				want = "nf-error"
 				break
 			}
-			frag = k == 0
+			frag = k == 0 || k == 3
 		}
 		if want == "non-nil" && prop != "C16" {
 			continue // truncated payloads are C16's subject
